@@ -165,7 +165,8 @@ def h_run_mapping_reduced(ctx, case):
     # marker table: each non-root entry kept, emptied or removed
     table = {}
     for k, v in ST.MARKERS.items():
-        if k == 'None':
+        if k == 'None' or (k in ('class/clsA', 'subclass/subB')
+                           and not case.get('all_entries')):
             table[k] = list(v)
             continue
         c = ctx.choice(f"table[{k}]", 3)
@@ -255,7 +256,8 @@ HARNESSES = [
                     'harness)', expect_reach=['mapped twice'], split=48),
     Harness('run_mapping_reduced_taxonomy', h_run_mapping_reduced,
             setup=_sc_setup, cases=[{}],
-            thorough_cases=[{}, {'min_markers': 1, 'factor': 1.0},
+            thorough_cases=[{'all_entries': True},
+                            {'min_markers': 1, 'factor': 1.0},
                             {'min_markers': 3}],
             funcs=['from_specified_markers.run_mapping', '_run_mapping',
                    'TaxonomyTree.drop_level/flatten/backfill_assignments',
